@@ -421,7 +421,23 @@ class Verdict:
         for r in results:
             if r.get("err"):
                 raise Inconclusive("harness error while replaying behaviour %s: %s" % (r["idx"], r["err"]))
-            for d in r["divs"]:
+            divs = r["divs"]
+            alts = {d.get("alt") for d in divs if d.get("alt")}
+            if len(alts) > 1:
+                # crash result: the recovered state may be either alternative (before / after the interrupted step).
+                # If every divergence of ONE alternative is a listed finding, the state IS that alternative (with the
+                # finding showing): only that alternative's divergences count.
+                listed = {f["id"] for f in load_findings()}
+                def unlisted(ds):
+                    return [d for d in ds if not (classify and classify(r, d) in listed)]
+                for a in sorted(alts):
+                    grp = [d for d in divs if d.get("alt") == a]
+                    if not unlisted(grp):
+                        divs = grp
+                        break
+                else:
+                    divs = unlisted(divs)[:1] or divs[:1]
+            for d in divs:
                 fid = classify(r, d) if classify else None
                 if fid and fid not in {f["id"] for f in load_findings()}:
                     fid = None      # only findings listed in known_findings.json are ever suppressed
